@@ -2801,6 +2801,22 @@ def check_typed_functor(chk, f, rule="TYPEDFUN"):
                 if mentioned and fixed not in mentioned:
                     out.append((x, fn.get("ty", ""), a, ptypes[r["n"]]))
                     break
+    # the same conversion spelled as a cast: an operand of a comparison is cast to a type built from the *other* operand's
+    # template parameter (`get<I>(lhs) == static_cast<Ts const&>(get<I>(rhs))`)
+    for x in astx.all_exprs(f, into_lambdas=True):
+        if x.get("k") != "bin" or x["op"] not in ("==", "!=", "<", ">", "<=", ">="):
+            continue
+        for side in (x["l"], x["r"]):
+            c = side
+            if c is None or c.get("k") != "cast" or c.get("ck") not in ("static", "functional", "cstyle"):
+                continue
+            named = set(t for t in tps if re.search(r"\b%s\b" % re.escape(t), c.get("ty", "")))
+            roots = [y for y in astx.walk_expr(c["e"]) if y.get("k") == "ref" and y.get("d") == "param" and y["n"] in ptypes]
+            for r in roots:
+                mentioned = set(t for t in tps if re.search(r"\b%s\b" % re.escape(t), ptypes[r["n"]]))
+                if named and mentioned and not (named & mentioned):
+                    out.append((x, c.get("ty", ""), c["e"], ptypes[r["n"]]))
+                    break
     return out
 
 
